@@ -401,7 +401,8 @@ class Compiler:
             try:
                 with open_device(filepath, "wb") as f:
                     f.write(result)
-            except IOError as ex:
+            except (IOError, ValueError) as ex:
+                # ValueError: the path cannot even be passed to the operating system (a NUL character)
                 reports.error(
                     "io-error",
                     (ctx_start, ctx_end, f"Could not write to '{filepath}':\n{ex}")
